@@ -6,6 +6,7 @@ import (
 	"fmt"
 	"os"
 	"regexp"
+	"runtime"
 	"runtime/debug"
 	"sort"
 	"time"
@@ -359,7 +360,7 @@ func reportViolation(eng core.Engine, o WorkerOpts, run, seed uint64, res core.R
 		}
 	}
 	file := &ReplayFile{Property: o.Prop, BaseSeed: o.Base, Run: run, RunSeed: seed, Violation: *rf.Viol,
-		Tape: min, TapeLabels: tf.Rec, Trace: rf.Trace, Original: len(tp.Vals),
+		Tape: min, TapeLabels: tf.Rec, Trace: rf.Trace, Original: len(tp.Vals), GOMAXPROCS: runtime.GOMAXPROCS(0),
 		Shrink: map[string]int{"executions": st.Execs, "from": st.From, "to": len(min), "ms": int(st.Elapsed.Milliseconds())}}
 	if len(file.TapeLabels) > 3000 {
 		file.TapeLabels = file.TapeLabels[:3000]
